@@ -321,6 +321,10 @@ def fan_cfgs(tier):
                                            conv_kw=dict(fdelay=1, transit=0.5), until=14)
     C["line-sconv-in"] = dict(n_src=1, n_out=1, n_items=3, w=1, in_kind="sconv", in_cap=3, sym=("iat", "pd"), out_delay=0)
     C["line-sconv-out"] = dict(n_src=1, n_out=1, n_items=3, w=2, out_kind="sconv", out_cap=3, sym=("iat", "pd"))
+    C["nb-machine-sconv-buffer"] = dict(n_src=1, n_out=2, n_items=4, w=1, out_kind=("sconv", "buffer"), out_cap=3, blocking=False, sym=("iat", "pd"), out_delay=0)
+    C["nb-machine-cconv-buffer"] = dict(n_src=1, n_out=2, n_items=4, w=1, out_kind=("cconv", "buffer"), out_cap=3, blocking=False, sym=("iat", "pd"), out_delay=0)
+    C["line-src-blocked"] = dict(n_src=1, n_out=1, n_items=4, w=1, in_cap=1, sym=("iat", "pd"), out_delay=0)
+    C["fanout-sink-fanin-tie-cap1"] = dict(n_src=2, n_out=2, n_items=2, w=2, out_cap=1, sink_fanin=True, same_iat=True, sym=("iat", "pd"), out_delay="sym")
     C["nb-source-idx"] = dict(n_src=1, n_out=1, n_items=4, w=1, in_cap=1, src_blocking=False)
     C["nb-source-fa"] = dict(n_src=1, n_out=1, n_items=4, w=1, in_cap=1, src_blocking=False, src_out_sel="FIRST_AVAILABLE")
     C["rr-in"] = dict(n_src=2, n_out=1, n_items=2, w=1, in_sel="ROUND_ROBIN")
@@ -402,7 +406,7 @@ PROPS["C09"] = {
                    "counter by exactly one, no finished item is held across an instant, and a non-blocking source keeps its cadence (k-th item at g1+..+gk).",
     "jobs": lambda tier: fan_jobs("C09", tier, names=["line-w1", "fanout-fa", "nb-machine-fa", "nb-machine-rr", "nb-machine-w2", "nb-source-idx", "nb-source-fa", "rr-out", "idx-out", "fanout-w2-tie",
                                                      "nb-machine-w2-fanout-tie", "nb-machine-w2-fleet-buffer-tie", "nb-machine-fleet-out", "nb-machine-cconv-out-w2-tie",
-                                                     "nb-machine-cconv-out-slow", "line-cconv-out", "line-fleet-out"]),
+                                                     "nb-machine-cconv-out-slow", "line-cconv-out", "line-fleet-out", "nb-machine-sconv-buffer", "nb-machine-cconv-buffer"]),
     "required_witnesses": ["C09:discard-seen", "C09:nonblocking-source-checked"],
     "nontrivial_witnesses": ["complete"],
     "twin": lambda tier: ("vfy.m2s", "fan", dict(props=("C09",), n_src=1, n_out=1, n_items=2, blocking=False, twin=True)),
@@ -425,8 +429,8 @@ PROPS["C10"] = {
 PROPS["C15"] = {
     "explanation": M2_EXPL + "the edge on which every item is pulled/pushed is compared with the policy's answers (ROUND_ROBIN k mod n, constant index, user callable / generator whose answers "
                    "the solver chooses), FIRST_AVAILABLE must not cancel a granted request on a lower-index edge in the round in which it commits, and the recorded selection history must equal the routing.",
-    "jobs": lambda tier: fan_jobs("C15", tier, names=["fanin-fa", "fanin-fa-indelay", "fanin-fa-w2-tie", "fanout-fa", "fanout-w2-tie", "nb-machine-fa", "nb-machine-rr", "rr-in", "rr-out", "rr-both", "idx-out", "callable-in", "generator-out", "fanout3-w3", "fanout-sink-fanin", "fanout-sink-fanin-tie", "line-srcfa", "fanin-fa-srcfa", "fanin3-fa",
-                                                     "nb-machine-w2-fanout-tie", "nb-machine-w2-fleet-buffer-tie", "nb-machine-fleet-out", "nb-machine-cconv-out-w2-tie"]) + srcfan_jobs("C15", tier) + pk_jobs_late("C15", tier, ["r11-rr2", "r13-nonblocking-split", "r12-fa2", "no-combiner-two-feeds-callable-in", "no-combiner-two-feeds-rr-in", "no-combiner-two-feeds-fa-in", "r13-nb-rr2-split"]) + [
+    "jobs": lambda tier: fan_jobs("C15", tier, names=["fanin-fa", "fanin-fa-indelay", "fanin-fa-w2-tie", "fanout-fa", "fanout-w2-tie", "nb-machine-fa", "nb-machine-rr", "rr-in", "rr-out", "rr-both", "idx-out", "callable-in", "generator-out", "fanout3-w3", "fanout-sink-fanin", "fanout-sink-fanin-tie", "fanout-sink-fanin-tie-cap1", "line-srcfa", "fanin-fa-srcfa", "fanin3-fa",
+                                                     "nb-machine-w2-fanout-tie", "nb-machine-w2-fleet-buffer-tie", "nb-machine-fleet-out", "nb-machine-cconv-out-w2-tie", "nb-machine-sconv-buffer", "nb-machine-cconv-buffer"]) + srcfan_jobs("C15", tier) + pk_jobs_late("C15", tier, ["r11-rr2", "r13-nonblocking-split", "r12-fa2", "no-combiner-two-feeds-callable-in", "no-combiner-two-feeds-rr-in", "no-combiner-two-feeds-fa-in", "r13-nb-rr2-split"]) + [
         {"name": "M0/selectors", "spec": ("vfy.m0", "selector_scenario", dict(nmax=4 if tier == "quick" else 6)), "budget_s": 20 if tier == "quick" else 60, "bounds": "RoundRobin_edge_selector and _get_*_edge_index of all node classes with out-of-range answers"}],
     "required_witnesses": ["C15:routing-checked", "C15:history-checked", "C15:range-checked"],
     "nontrivial_witnesses": ["complete"],
@@ -439,7 +443,7 @@ PROPS["C17"] = {
     "explanation": M2_EXPL + "the run ends at a symbolic time T (URGENT stop event exactly as env.run(until=T)); after update_final_state_time(T) all totals are >= 0, the Machine's two "
                    "state groups and its worker-occupancy histogram each equal T exactly (linear real arithmetic), SETUP = min(T, setup), and every class total equals the duration measured "
                    "independently from the ledger by a sweep over processing [t_pull, t_pull+d) and blocked [t_pull+d, t_out) intervals.",
-    "jobs": lambda tier: fan_jobs("C17", tier, names=["line-w1", "line-w2-per-item", "fanin-fa", "fanout-fa", "nb-machine-fa", "nb-source-idx", "line-const", "fanout3-w3"], extra_kw={"until": "sym"}) + fan_jobs(
+    "jobs": lambda tier: fan_jobs("C17", tier, names=["line-w1", "line-w2-per-item", "fanin-fa", "fanout-fa", "nb-machine-fa", "nb-source-idx", "line-const", "fanout3-w3", "rr-out", "idx-out"], extra_kw={"until": "sym"}) + fan_jobs(
         "C17", tier, names=["line-w1"], extra_kw={"until": "sym", "setup": 2}),
     "required_witnesses": ["C17:finalised@Machine", "C17:finalised@Source", "C17:finalised@Sink"],
     "nontrivial_witnesses": ["complete"],
@@ -454,7 +458,7 @@ PROPS["C18"] = {
                    "timestamps are non-decreasing along each route. Buffer, Fleet and continuous-conveyor edges; the statistic is read twice for the same end time (must not change), and in the "
                    "two-stage jobs the simulation is continued after the first reading to a second symbolic end time where everything is checked again.",
     "jobs": lambda tier: fan_jobs("C18", tier, names=["line-w1", "line-w2-per-item", "line-indelay", "line-zero-iat", "fanin-fa", "fanout-fa", "nb-machine-fa", "nb-source-idx", "idx-out", "rr-out",
-                                                      "line-fleet-out", "line-cconv-in", "line-cconv-out", "line-sconv-in", "line-sconv-out"], extra_kw={"until": "sym"}) + [
+                                                      "line-fleet-out", "line-cconv-in", "line-cconv-out", "line-sconv-in", "line-sconv-out", "fanout-sink-fanin", "fanout-sink-fanin-tie", "fanout-sink-fanin-tie-cap1", "line-src-blocked"], extra_kw={"until": "sym"}) + [
         dict(j, name=j["name"] + "/two-stage") for j in fan_jobs("C18", tier, names=["line-w1", "fanout-fa", "line-fleet-out", "line-cconv-in", "line-cconv-out", "line-sconv-out"],
                                                                  extra_kw={"until": "sym", "two_stage": True}, budget=20 if tier == "quick" else 90)],
     "required_witnesses": ["C18:counters-checked", "C18:cycle-time-checked", "C18:time-average-checked", "two-stage-finalisation"],
